@@ -1,9 +1,10 @@
 #!/bin/bash
+ROOT=$(cd "$(dirname "$0")/.." && pwd)
 # determinism.sh [runs-per-process]   prove that a run is a pure function of its seed:
 # every property, same run indices, in many fresh processes across gates, lock modes, GOMAXPROCS values and both builds.
 N=${1:-300}
-cd /verif && ./check.sh --build-only || exit 2
-B=/verif/.bin/setup; T=$(mktemp -d /verif/.tmp/det-XXXX); trap 'rm -rf $T' EXIT
+cd "$ROOT" && ./check.sh --build-only || exit 2
+B="$ROOT"/.bin/setup; mkdir -p "$ROOT"/.tmp; T=$(mktemp -d "$ROOT"/.tmp/det-XXXX); trap 'rm -rf $T' EXIT
 fail=0
 for prop in C14 C19 C13 C11; do
   n=$N; [ $prop = C19 ] && n=$((N/10))
